@@ -236,7 +236,8 @@ def run_case(c):
         T, t = M[0], f[0]
         # (2) outside all balls -> paraboloid
         npar = 0
-        X = rng.uniform(-1, 1, (400, n))
+        deep = c["sample"] == "all"
+        X = rng.uniform(-1, 1, (4000 if deep else 400, n))
         for x in X:
             dd = np.sqrt(((M[1:] - x) ** 2).sum(axis=1))
             if np.all(dd > rho[1:] * (1 + 1e-9)):
@@ -249,7 +250,7 @@ def run_case(c):
         obs["paraboloid_points"] = obs.get("paraboloid_points", 0) + npar
         # (3),(4) inside balls and across boundaries
         for i in range(1, 10):
-            for q in range(24):
+            for q in range(120 if deep else 24):
                 u = rng.normal(size=n)
                 u /= np.sqrt((u ** 2).sum())
                 rr = rho[i] * float(rng.random()) ** (1.0 / n)
@@ -266,7 +267,7 @@ def run_case(c):
                 if q < 4 and abs(v - f[i]) > 1e-6:
                     if len(viol) < 8:
                         viol.append(dict(d, mech="gkls:discontinuous-at-minimiser", i=i, r=rr, value=float(v), minimum=float(f[i])))
-            for q in range(16):
+            for q in range(80 if deep else 16):
                 u = rng.normal(size=n)
                 u /= np.sqrt((u ** 2).sum())
                 xin = M[i] + rho[i] * (1 - 1e-9) * u
